@@ -169,6 +169,9 @@ def run(repo: Repo, chk: Check):
     chk.rule("R03.e", "constants[k] is the module variable k of types.py, so the folded and the un-folded spelling agree", floor=3)
     chk.rule("R03.f", "the operand coercion _e ends in float(value) and sends HASH(\"...\") spellings through the numeric hash", floor=2)
     chk.rule("R03.g", "a literal replaces an expression only under the node's is_constant flag (or the callee's is_constexpr)", floor=5)
+    chk.rule("R03.m", "every symbolic spelling that the output mode can produce (HASH(\"...\"), STR(\"...\")) is understood by the coercions of the "
+                      "folding tables and evaluated to the number the compact output carries: folding must not succeed in one mode and fail in the other", floor=2)
+    chk.guarded(r03m, repo, chk)
     chk.rule("R03.k", "every table evaluator reads its operands through a coercion that maps a HASH(\"...\") spelling to its number "
                       "(whether a hash is spelled symbolically depends on the output mode, the folded value must not)", floor=20)
     chk.rule("R03.i", "in the constness passes the value of an operator node (binary, boolean, comparison, unary) is set only from "
@@ -424,24 +427,125 @@ def r03j(repo: Repo, chk: Check):
         raise AnalysisError("R03.j: folded subscript (return True, value[slice]) not found in is_constant")
 
 
+def _prefix_tests(fn):
+    """[(call, prefixes)] for every  <x>.startswith(<constant or tuple of constants>)  in fn."""
+    out = []
+    for c in ast.walk(fn):
+        if isinstance(c, ast.Call) and isinstance(c.func, ast.Attribute) and c.func.attr == "startswith" and len(c.args) == 1:
+            a = c.args[0]
+            if isinstance(a, ast.Constant) and isinstance(a.value, str):
+                out.append((c, (a.value,)))
+            elif isinstance(a, ast.Tuple) and all(isinstance(e, ast.Constant) and isinstance(e.value, str) for e in a.elts):
+                out.append((c, tuple(e.value for e in a.elts)))
+    return out
+
+
 def _normalisers(repo):
     """Functions of utils.py that turn a HASH("...") spelling into its number."""
     u = repo.mod("utils")
     out = set()
-    for name, fn in u.funcs.items():
+    for _ in range(3):
+        for name, fn in u.funcs.items():
+            if "." in name or name in out:
+                continue
+            if not any('HASH("' in ps for _c, ps in _prefix_tests(fn)):
+                continue
+            calls = {c.func.id for c in ast.walk(fn) if isinstance(c, ast.Call) and isinstance(c.func, ast.Name)}
+            if calls & ({"compute_hash", "calc_hash"} | out):
+                out.add(name)
+    return out
+
+
+def symbolic_spellings(repo):
+    """{prefix: producing function} for every spelling  PREFIX("...")  that types.py hands to _apply_output_mode."""
+    t = repo.mod("types")
+    out = {}
+    for name, fn in t.funcs.items():
         if "." in name:
             continue
-        src = norm(fn)
-        if "startswith('HASH(\"')" in src and ("compute_hash" in src or "calc_hash" in src or any(isinstance(c, ast.Call) and isinstance(c.func, ast.Name) and c.func.id in out for c in ast.walk(fn))):
-            out.add(name)
-    # one more round for helpers that delegate to a normaliser
-    for name, fn in u.funcs.items():
-        if "." in name or name in out:
-            continue
-        src = norm(fn)
-        if "startswith('HASH(\"')" in src and any(isinstance(c, ast.Call) and isinstance(c.func, ast.Name) and c.func.id in out for c in ast.walk(fn)):
-            out.add(name)
+        cfg = rd = None
+        for c in ast.walk(fn):
+            if not (isinstance(c, ast.Call) and norm(c.func).split(".")[-1] == "_apply_output_mode" and len(c.args) >= 2):
+                continue
+            sv = c.args[1]
+            if isinstance(sv, ast.Name):
+                cfg, rd = fn_ctx(fn)
+                ids = live_ids(cfg, c)
+                ds = rd.at(ids[0], sv.id) if ids else []
+                if len(ds) == 1 and ds[0].kind == "assign" and not ds[0].index and ds[0].value is not None:
+                    sv = ds[0].value
+            from .shared import string_parts
+            parts = string_parts(sv)
+            if parts and len(parts) == 3 and isinstance(parts[0], str) and parts[0].endswith('("') and parts[2] == '")':
+                out[parts[0]] = name
+            else:
+                raise AnalysisError(f"{name}: the symbolic spelling handed to _apply_output_mode ({norm(sv)[:60]}) is not of the form PREFIX(\"...\")")
     return out
+
+
+def r03m(repo: Repo, chk: Check, R="R03.m"):
+    """Every symbolic spelling the output mode can produce is understood by the folding coercions."""
+    u = repo.mod("utils")
+    spell = symbolic_spellings(repo)
+    if 'HASH("' not in spell:
+        raise AnalysisError(f"R03.m: the producer of HASH(\"...\") spellings was not found in types.py (found {sorted(spell)})")
+    normalisers = _normalisers(repo)
+    if not normalisers:
+        raise AnalysisError("R03.m: no coercion function handling HASH(\"...\") spellings found in utils.py")
+    handled = {}
+    for name in sorted(normalisers):
+        fn = u.func(name)
+        chk.saw("utils", name)
+        cfg, rd = fn_ctx(fn)
+        got = {}
+        for tst, prefixes in _prefix_tests(fn):
+            # what is done under this test: a call of the producer with the unwrapped text in NUMERIC mode, or of another normaliser
+            for c in ast.walk(fn):
+                if not (isinstance(c, ast.Call) and isinstance(c.func, ast.Name)):
+                    continue
+                ids = live_ids(cfg, c)
+                if not ids or not any(t is tst and pol for t, pol in guard_atoms(cfg, ids[0])):
+                    continue
+                if c.func.id in normalisers:
+                    for p_ in prefixes:
+                        got.setdefault(p_, ("delegates", c.func.id))
+                for p_ in prefixes:
+                    if c.func.id == spell.get(p_) and c.args:
+                        numeric = any(norm(a).endswith("NUMERIC") for a in c.args[1:]) or any(norm(k.value).endswith("NUMERIC") for k in c.keywords)
+                        a0 = c.args[0]
+                        cut = None
+                        if isinstance(a0, ast.Subscript) and isinstance(a0.slice, ast.Slice) and a0.slice.step is None:
+                            lo, hi = a0.slice.lower, a0.slice.upper
+                            lo = lo.value if isinstance(lo, ast.Constant) else (len(p_) if lo is not None and norm(lo) == f"len({p_!r})" else None)
+                            hi = -hi.operand.value if isinstance(hi, ast.UnaryOp) and isinstance(hi.op, ast.USub) and isinstance(hi.operand, ast.Constant) else None
+                            cut = (lo, hi)
+                        elif isinstance(a0, ast.Call) and isinstance(a0.func, ast.Attribute) and a0.func.attr == "removesuffix" and isinstance(a0.func.value, ast.Call) \
+                                and isinstance(a0.func.value.func, ast.Attribute) and a0.func.value.func.attr == "removeprefix":
+                            pa, sa_ = a0.func.value.args[0], a0.args[0]
+                            if isinstance(pa, ast.Constant) and isinstance(sa_, ast.Constant):
+                                cut = (len(pa.value) if pa.value == p_ else None, -len(sa_.value) if sa_.value == '")' else None)
+                        if cut is None:
+                            raise AnalysisError(f"{name}: how {norm(a0)[:60]} unwraps the spelling {p_}...\") is not recognised")
+                        got[p_] = ("direct", numeric, cut)
+        handled[name] = got
+    for name in sorted(normalisers):
+        fn = u.func(name)
+        for p_, producer in sorted(spell.items()):
+            key = f"utils:{name}:understands the spelling {p_}...\") of types.{producer}"
+            where = f"{u.path}:{fn.lineno} in {name}"
+            h = handled[name].get(p_)
+            if h is None:
+                chk.bad(R, key, f"types.{producer} spells its value as {p_}...\") in verbose mode and as a number in compact mode; {name} has no branch for that spelling, so an "
+                                f"expression over such a constant is folded in compact mode and is rejected (or compared as text) in verbose mode", None, where)
+            elif h[0] == "delegates":
+                tgt = handled.get(h[1], {}).get(p_)
+                chk.judge(R, key, tgt is not None and tgt[0] == "direct", f"{name} passes {p_}...\") on to {h[1]}, which has no branch for it", None, where)
+            else:
+                _, numeric, cut = h
+                chk.judge(R, key, numeric and cut == (len(p_), -2),
+                          f"the branch for {p_}...\") calls {producer} with a cut of {cut} characters (the wrapper has {len(p_)} and 2) "
+                          f"{'in NUMERIC mode' if numeric else 'WITHOUT forcing the numeric mode'}: the folded value is not the number the compact output carries",
+                          {"cut": cut, "numeric": numeric}, where)
 
 
 def r03k(repo: Repo, chk: Check, R="R03.k"):
